@@ -121,8 +121,10 @@ def run(task):
             d = A.DISSIMS.get(recipe)
             # ---- library alignments: carried values
             maxw = -(-m // n) + 1
-            for kind, window in [("best", None), ("soft", None)] + [("fast", w) for w in range(1, min(maxw, 2) + 1)]:
-                obs = A.eval_case(spec, recipe, "cbc", kind, window)
+            plan = [("best", None, "cbc"), ("soft", None, "cbc")] + [("fast", w, "cbc") for w in range(1, min(maxw, 2) + 1)]
+            plan += [("best", None, "glpk_noimport"), ("soft", None, "glpk_error"), ("fast", 1, "glpk_noimport")]
+            for kind, window, backend in plan:
+                obs = A.eval_case(spec, recipe, backend if A.cbc_available() else "glpk_noimport", kind, window)
                 res["evaluations"] += 1
                 res["transitions"] += 1
                 if not obs["ok"]:
@@ -135,7 +137,8 @@ def run(task):
                            {"spec": spec, "recipe": recipe, "point": "sequence", "nts": obs["nts"],
                             "sequence": [pc["case"], A.case_dict(spec, recipe, "cbc", kind, window)]})
                 uds, tot = definition(obs["nts"], recipe, m, n)
-                case = {"spec": spec, "recipe": recipe, "point": f"library {kind} w={window}", "nts": obs["nts"]}
+                case = {"spec": spec, "recipe": recipe, "point": f"library {kind} w={window}", "nts": obs["nts"],
+                        "backend": backend}
                 if not close(obs["disorder"], tot):
                     report(f"disorder carried by the {kind} alignment: {obs['disorder']} but its units give {tot}", case)
                 elif any(x is None or not close(x, y) for x, y in zip(obs["uds"], uds)):
@@ -232,7 +235,7 @@ def replay(case):
     elif case["point"].startswith("library"):
         _, kind, w = case["point"].split(" ")
         window = None if w == "w=None" else int(w[2:])
-        obs = A.eval_case(spec, recipe, "cbc", kind, window)
+        obs = A.eval_case(spec, recipe, case.get("backend", "cbc"), kind, window)
         if obs["ok"]:
             uds, tot = definition(obs["nts"], recipe, m, n)
             if not close(obs["disorder"], tot) or any(x is None or not close(x, y) for x, y in zip(obs["uds"], uds)):
